@@ -25,7 +25,8 @@ PER_CASE_TIMEOUT = 30
 RULE = ("random reductions: 4 strategies x 2 scitypes (inferred or explicit), series of n <= 26 distinct "
         "positive integers on a RangeIndex starting at 0/7/100, window_length 1..6, horizon = sorted "
         "subset of 1..6 (contiguous and gapped), 0-2 exogenous columns of distinct integers disjoint "
-        "from y, fh given at fit / predict / both, 0-5 observations appended by "
+        "from y, dtype of y / of the exogenous columns in {float64 (5 in 9), int64, int32, float32, bool} "
+        "(bool: values 0/1, kinds run and swt only), fh given at fit / predict / both, 0-5 observations appended by "
         "update(update_params=False) before predict (4 in 9 cases); feasibility boundary n = wl + max(fh) - 1 + "
         "{-1,0,1,2,..} oversampled; plus direct calls of _sliding_window_transform and "
         "_infer_scitype/make_reduction dispatch on 4 estimator kinds; plus call histories (kind hist, 240 "
@@ -50,10 +51,11 @@ TRUSTED = [
     "conditional values, array writes with path condition and loop, interprocedural inlining from the "
     "public predict / fit, `isinstance` of an integer time point, `fh.is_all_out_of_sample(cutoff)` "
     "taken to hold on the predict path) is trusted",
-    "the test-double regressors in props/c05.py (recording, positional weighted sums) and their "
-    "Gallina twins in coq/C05/Cases.v: same arithmetic on both sides, exact in float64 "
-    "(all values are integers < 2^53); the theorems quantify over ALL deterministic regressors, the "
-    "doubles only instantiate them for the comparison",
+    "the test-double regressors in props/c05.py (recording, positional weighted sums + 1/2, so that "
+    "their outputs are never whole numbers and an integer-typed buffer shows) and their "
+    "Gallina twins in coq/C05/Cases.v: same arithmetic on both sides in the unit 1/2 (all values of a "
+    "case are doubled when printed for Coq), exact in float64 (multiples of 1/2 below 2^52); the "
+    "theorems quantify over ALL deterministic regressors, the doubles only instantiate them",
     "modelled: numpy zeros / slice assignment / negative-stop slicing / reshape (C order) / "
     "concatenate / expand_dims / ravel as list operations; ForecastingHorizon as a sorted list of "
     "positive steps with to_indexer = h - 1; pandas .loc[start:cutoff] on an integer RangeIndex as an "
@@ -124,6 +126,36 @@ def _series(rng, n, nx):
     return y, xs
 
 
+def _rand_dtype(rng, allow_bool=True):
+    """[dtype of y, dtype of the exogenous columns]: float64 in 5 of 9 cases; otherwise an integer /
+    narrower float / bool target with exogenous columns of the same or of another dtype"""
+    if rng.random() < 0.55:
+        return ["float64", "float64"]
+    yd = rng.choice(["int64", "int64", "int32", "float32"] + (["bool"] if allow_bool else []))
+    xd = yd if rng.random() < 0.6 else rng.choice(["float64", "int64", "int32", "float32"])
+    return [yd, xd]
+
+
+def _boolify(rng, case):
+    """bool columns hold only 0 / 1 (the values no longer identify their position: the clauses that
+    locate values are skipped for such cases, the exact comparisons are not)"""
+    yd, xd = case["dtype"]
+
+    def bits(col):
+        return [rng.randint(0, 1) for _ in col]
+    if yd == "bool":
+        case["y"] = bits(case["y"])
+        if case.get("news"):
+            case["news"][0] = bits(case["news"][0])
+    if xd == "bool":
+        case["xs"] = [bits(c) for c in case["xs"]]
+        if case.get("news"):
+            case["news"][1:] = [bits(c) for c in case["news"][1:]]
+        if case.get("xfut"):
+            case["xfut"] = [bits(c) for c in case["xfut"]]
+    return case
+
+
 def _run_case(rng, strategy=None):
     st = strategy or rng.choice(STRATS)
     fh = _rand_fh(rng)
@@ -142,12 +174,14 @@ def _run_case(rng, strategy=None):
     k = rng.choice([0, 0, 0, 0, 0, 1, 2, 3, 5])
     news = [[100 + a for a in rng.sample(range(1, 60), k)]] + [
         [300 * (v + 1) + 200 + a for a in rng.sample(range(1, 40), k)] for v in range(nx)]
-    return {"kind": "run", "strategy": st, "scitype": rng.choice(["tab", "ts"]),
-            "explicit": rng.random() < 0.25, "y": y, "xs": xs, "wl": wl, "fh": fh, "xfut": xfut,
-            "news": news,
-            "off": rng.choice([0, 0, 7, 100]),
-            "fh_at": rng.choice(["fit", "both", "predict"]) if st == "recursive"
-            else rng.choice(["fit", "both"])}
+    c = {"kind": "run", "strategy": st, "scitype": rng.choice(["tab", "ts"]),
+         "explicit": rng.random() < 0.25, "y": y, "xs": xs, "wl": wl, "fh": fh, "xfut": xfut,
+         "news": news,
+         "off": rng.choice([0, 0, 7, 100]),
+         "fh_at": rng.choice(["fit", "both", "predict"]) if st == "recursive"
+         else rng.choice(["fit", "both"])}
+    c["dtype"] = _rand_dtype(rng)
+    return _boolify(rng, c)
 
 
 def gen_cases(rng, tier):
@@ -161,8 +195,8 @@ def gen_cases(rng, tier):
         nx = rng.choice([0, 0, 1, 2])
         n = max(1, wl + fh[-1] - 1 + rng.choice([-1, 0, 0, 1, 1, 2, 3, 5, 8, 12]))
         y, xs = _series(rng, n, nx)
-        cases.append({"kind": "swt", "scitype": rng.choice(["tab", "ts"]), "y": y, "xs": xs, "wl": wl,
-                      "fh": fh})
+        cases.append(_boolify(rng, {"kind": "swt", "scitype": rng.choice(["tab", "ts"]), "y": y, "xs": xs,
+                                    "wl": wl, "fh": fh, "dtype": _rand_dtype(rng)}))
     for est in ("tab", "ts", "both", "neither"):
         for st in ("direct", "recursive"):
             cases.append({"kind": "infer", "estimator": est, "strategy": st})
@@ -370,7 +404,7 @@ def _hist_case(rng, scenario=None, st=None):
                 fresh_updpred(up=rng.random() < 0.2, overlap=rng.random() < 0.4)
     return {"kind": "hist", "scenario": scenario, "strategy": st, "scitype": rng.choice(["tab", "ts"]),
             "explicit": rng.random() < 0.2, "wl": wl, "off": off, "y": vals(0, n0),
-            "xs": xvals(0, n0), "fh": list(fh), "ops": ops}
+            "xs": xvals(0, n0), "fh": list(fh), "ops": ops, "dtype": _rand_dtype(rng, allow_bool=False)}
 
 
 
@@ -388,10 +422,12 @@ def exhaustive_cases():
                             xs = [[300 + a for a in range(1, n + 1)]] * nx
                             xfut = [[500 + a for a in range(1, fh[-1] + 1)]] * nx \
                                 if st == "recursive" else []
+                            dts = [["float64", "float64"], ["int64", "int64"], ["int32", "float64"],
+                                   ["float32", "int64"]]
                             out.append({"kind": "run", "strategy": st, "scitype": sc,
                                         "explicit": False, "y": y, "xs": xs, "wl": wl, "fh": fh,
                                         "xfut": xfut, "news": [[]] * (1 + nx), "off": 0,
-                                        "fh_at": "fit"})
+                                        "fh_at": "fit", "dtype": dts[len(out) % 4]})
     return out
 
 
@@ -412,15 +448,16 @@ def _cutoff_now():
 
 
 def _wsum(vals):
-    """positional weighted sum, weights 1, 2, 3, ... (exact on integers)"""
+    """positional weighted sum, weights 1, 2, 3, ... - exact on multiples of 1/2 (the doubles answer
+    half-integers, see _d_predict), computed on the doubled integers"""
     try:
-        ints = []
+        twos = []
         for v in vals:
-            f = float(v)
+            f = 2.0 * float(v)
             if f != f or f in (float("inf"), float("-inf")) or f != int(f):
                 raise ValueError
-            ints.append(int(f))
-        return sum((i + 1) * v for i, v in enumerate(ints))
+            twos.append(int(f))
+        return sum((i + 1) * v for i, v in enumerate(twos)) / 2.0
     except (ValueError, OverflowError):
         return float(sum((i + 1) * float(v) for i, v in enumerate(vals)))
 
@@ -440,7 +477,9 @@ def _d_predict(self, X):
     import numpy as np
     X = np.array(X, dtype=float, copy=True)
     rows = X.reshape(X.shape[0], -1) if X.ndim >= 2 else X.reshape(1, -1)
-    vals = [_wsum(r) + self.digest_ for r in rows]
+    # + 1/2: the outputs are NOT whole numbers, so that an integer-typed buffer somewhere between the
+    # regressor and the next window (or the returned forecast) shows as a truncated value
+    vals = [_wsum(r) + self.digest_ + 0.5 for r in rows]
     if self.ntargets_:
         ret = np.array([[v + 7 * (j + 1) for j in range(self.ntargets_)] for v in vals], dtype=float)
     elif len(vals) == 1:
@@ -492,23 +531,49 @@ class _NonInt(Exception):
     pass
 
 
+def _halves(x):
+    """a doubled integer back as a number: int when whole, x.5 otherwise"""
+    if isinstance(x, list):
+        return [_halves(v) for v in x]
+    return x // 2 if x % 2 == 0 else x / 2.0
+
+
 def _canon(a):
-    """numpy array -> nested lists of Python ints; raises _NonInt on NaN/inf/fractions"""
+    """numpy array -> nested lists of Python numbers that are multiples of 1/2 (ints when whole: the
+    observations; the doubles' outputs are half-integers); raises _NonInt on NaN/inf/other fractions"""
     import numpy as np
-    a = np.asarray(a, dtype=float)
+    a = 2.0 * np.asarray(a, dtype=float)
     if not np.all(np.isfinite(a)) or not np.all(a == np.round(a)):
-        raise _NonInt(repr(a.tolist())[:200])
-    return np.round(a).astype("int64").tolist() if a.ndim else int(np.round(a))
+        raise _NonInt(repr((a / 2.0).tolist())[:200])
+    t = np.round(a).astype("int64").tolist() if a.ndim else int(np.round(a))
+    return _halves(t)
 
 
 ERRS = ("ValueError", "NotImplementedError", "TypeError", "IndexError", "KeyError", "AssertionError",
         "AttributeError")
 
 
-def _frame(cols, index):
+DTYPES = ("float64", "int64", "int32", "float32", "bool")
+
+
+def _dt(case, which):
+    """dtype of y (which = 0) / of the exogenous columns (which = 1); float64 when not stated"""
+    d = case.get("dtype") or ["float64", "float64"]
+    return d[which]
+
+
+def _arr(vals, dt="float64"):
+    """the values in the requested dtype; they must be representable exactly (bool: only 0 / 1)"""
     import numpy as np
+    a = np.array(vals, dtype="int64" if len(vals) else float).astype(dt)
+    if len(vals) and [int(v) for v in a.astype("int64")] != [int(v) for v in vals]:
+        raise ValueError("invalid case: values %s are not representable as %s" % (list(vals)[:5], dt))
+    return a
+
+
+def _frame(cols, index, dt="float64"):
     import pandas as pd
-    return pd.DataFrame({"x%d" % i: np.array(c, dtype=float) for i, c in enumerate(cols)},
+    return pd.DataFrame({"x%d" % i: pd.Series(_arr(c, dt), index=index) for i, c in enumerate(cols)},
                         index=index)
 
 
@@ -568,10 +633,10 @@ def _run_hist(case):
     nx = len(case["xs"])
 
     def ser(t, vals):
-        return pd.Series(np.array(vals, dtype=float), index=pd.RangeIndex(t, t + len(vals)))
+        return pd.Series(_arr(vals, _dt(case, 0)), index=pd.RangeIndex(t, t + len(vals)))
 
     def frm(t, cols):
-        return _frame(cols, pd.RangeIndex(t, t + len(cols[0]))) if cols else None
+        return _frame(cols, pd.RangeIndex(t, t + len(cols[0])), _dt(case, 1)) if cols else None
 
     est = cls[case["scitype"]]()
     sc = "infer"
@@ -701,8 +766,8 @@ def run_impl(case):
     n = len(case["y"])
     if k == "swt":
         idx = pd.RangeIndex(n)
-        y = pd.Series(np.array(case["y"], dtype=float), index=idx)
-        X = _frame(case["xs"], idx) if case["xs"] else None
+        y = pd.Series(_arr(case["y"], _dt(case, 0)), index=idx)
+        X = _frame(case["xs"], idx, _dt(case, 1)) if case["xs"] else None
         sc = "tabular-regressor" if case["scitype"] == "tab" else "time-series-regressor"
         try:
             yt, Xt = _swt_function(_reduce)(
@@ -719,8 +784,8 @@ def run_impl(case):
     # kind == "run"
     off = case["off"]
     idx = pd.RangeIndex(off, off + n)
-    y = pd.Series(np.array(case["y"], dtype=float), index=idx)
-    X = _frame(case["xs"], idx) if case["xs"] else None
+    y = pd.Series(_arr(case["y"], _dt(case, 0)), index=idx)
+    X = _frame(case["xs"], idx, _dt(case, 1)) if case["xs"] else None
     fh = list(case["fh"])
     est = cls[case["scitype"]]()
     sc = "infer"
@@ -740,13 +805,13 @@ def run_impl(case):
         if k:
             stage = "update"
             idx2 = pd.RangeIndex(off + n, off + n + k)
-            f.update(pd.Series(np.array(news[0], dtype=float), index=idx2),
-                     _frame(news[1:], idx2) if case["xs"] else None, update_params=False)
+            f.update(pd.Series(_arr(news[0], _dt(case, 0)), index=idx2),
+                     _frame(news[1:], idx2, _dt(case, 1)) if case["xs"] else None, update_params=False)
         stage = "predict"
         Xf = None
         if case["xfut"]:
             m = len(case["xfut"][0])
-            Xf = _frame(case["xfut"], pd.RangeIndex(off + n + k, off + n + k + m))
+            Xf = _frame(case["xfut"], pd.RangeIndex(off + n + k, off + n + k + m), _dt(case, 1))
         p = f.predict(fh=None if case["fh_at"] == "fit" else fh, X=Xf)
     except Exception as e:
         if type(e).__name__ in ERRS:
@@ -784,6 +849,8 @@ def _where(case):
     future exogenous rows after them"""
     n = len(case["y"])
     w = {}
+    if "bool" in (case.get("dtype") or []):
+        return None
     if case["kind"] == "run":
         for j, col in enumerate(_news(case)):
             for t, v in enumerate(col):
@@ -832,7 +899,7 @@ def _swt_checks(case, zs, wl, steps, nw, Xrows, T, what):
                 return ("target-not-h-steps-after-window: %s row %d step %d got %s expected "
                         "y[%d]=%s" % (what, r, h, T[r][j], r + wl - 1 + h, want))
         first_target = r + wl - 1 + steps[0]
-        for v, win in enumerate(Xrows[r]):
+        for v, win in enumerate(Xrows[r] if where is not None else []):
             for val in win:
                 if val not in where:
                     return "row-contains-non-observation: %s row %d value %s" % (what, r, val)
@@ -1211,7 +1278,7 @@ def oracle(case, out):
                 tpos = r + wl - 1 + fh[i]
                 if len(rows[r]) != 1:
                     return "train-row-not-lag-window: dirrec row %d has %d variables" % (r, len(rows[r]))
-                for val in rows[r][0]:
+                for val in (rows[r][0] if where is not None else []):
                     if val not in where:
                         return "row-contains-non-observation: dirrec step %d row %d value %s" % (
                             fh[i], r, val)
@@ -1348,6 +1415,10 @@ def _shrink_hist(c):
         d["off"] = 0
         d["ops"] = [dict(o, t=o["t"] - k) if "t" in o else o for o in ops]
         yield d
+    if c.get("dtype") and c["dtype"] != ["float64", "float64"]:
+        d = dict(c)
+        d["dtype"] = ["float64", "float64"]
+        yield d
     if c.get("explicit"):
         d = dict(c)
         d["explicit"] = False
@@ -1412,7 +1483,11 @@ def shrink(case):
         d = dict(c)
         d["off"] = 0
         yield d
-    if c["y"] != list(range(1, n + 1)):
+    if c.get("dtype") and c["dtype"] != ["float64", "float64"] and "bool" not in c["dtype"]:
+        d = dict(c)
+        d["dtype"] = ["float64", "float64"]
+        yield d
+    if c["y"] != list(range(1, n + 1)) and "bool" not in (c.get("dtype") or []):
         d = dict(c)
         d["y"] = list(range(1, n + 1))
         yield d
@@ -1435,13 +1510,26 @@ _ST = {"direct": "Direct", "recursive": "Recursive", "multioutput": "Multioutput
 _SC = {"tab": "Tabular", "ts": "TimeSeries"}
 
 
+def _v2(v):
+    """a value (multiple of 1/2) in the model's unit: doubled, so that it is an integer"""
+    d = 2 * v
+    if d != int(d):
+        raise ValueError("not a multiple of 1/2: %r" % (v,))
+    return cz(int(d))
+
+
+def vzlist(l):
+    return clist([_v2(v) for v in l])
+
+
 def _czll(m):
-    return clist([czlist(r) for r in m])
+    """matrix of VALUES"""
+    return clist([vzlist(r) for r in m])
 
 
 def _cxrows(X, ndim):
     if ndim == 2:
-        return clist(["RTab " + czlist(r) for r in X])
+        return clist(["RTab " + vzlist(r) for r in X])
     if ndim == 3:
         return clist(["RPan " + _czll(r) for r in X])
     return None
@@ -1452,7 +1540,7 @@ def _cfit(e):
     if X is None:
         return None
     if e["tdim"] == 1:
-        return "Fit1 %s %s" % (X, czlist(e["t"]))
+        return "Fit1 %s %s" % (X, vzlist(e["t"]))
     if e["tdim"] == 2:
         return "FitM %s %s" % (X, _czll(e["t"]))
     return None
@@ -1477,16 +1565,16 @@ def _crun_out(out):
         return _bad_shape()
     if not isinstance(out["forecast"], list) or any(isinstance(v, list) for v in out["forecast"]):
         return _bad_shape()
-    return "(Some (%s, %s, %s, %s))" % (clist(fs), clist(ps), czlist(out["forecast"]),
+    return "(Some (%s, %s, %s, %s))" % (clist(fs), clist(ps), vzlist(out["forecast"]),
                                        czlist(out["index"]))
 
 
 def _cinputs(case):
-    return "%s %s %s %s" % (czlist(case["y"]), _czll(case["xs"]), cz(case["wl"]), czlist(case["fh"]))
+    return "%s %s %s %s" % (vzlist(case["y"]), _czll(case["xs"]), cz(case["wl"]), czlist(case["fh"]))
 
 
 def _ctser(t0, vals):
-    return "(tblock %s %s)" % (cz(t0), czlist(vals))
+    return "(tblock %s %s)" % (cz(t0), vzlist(vals))
 
 
 def _cfh(fh):
@@ -1522,7 +1610,7 @@ def _cev(e):
 
 
 def _cfc(ix, v):
-    return "(%s, %s)" % (czlist(ix), "None" if v is None else "Some %s" % czlist(v))
+    return "(%s, %s)" % (czlist(ix), "None" if v is None else "Some %s" % vzlist(v))
 
 
 def _chist_out(out):
@@ -1546,7 +1634,7 @@ def _chist_out(out):
             if v is not None and (not isinstance(v, list) or any(isinstance(x, list) for x in v)):
                 v = []
             res = "RPred %s" % _cfc(r["ix"], v)
-        mem = clist(["(%s, %s)" % (cz(t), cz(v)) for t, v in stp["mem"]])
+        mem = clist(["(%s, %s)" % (cz(t), _v2(v)) for t, v in stp["mem"]])
         hs.append("(%s, %s, %s, %s)" % (clist(evs), res, cz(stp["cut"]), mem))
     return "(Some %s)" % clist(hs)
 
@@ -1554,7 +1642,7 @@ def _chist_out(out):
 def _chist_inputs(case):
     return "%s %s %s %s %s %s %s %s" % (
         _ST[case["strategy"]], _SC[case["scitype"]], cz(case["wl"]), cz(case["off"]),
-        czlist(case["y"]), _czll(case["xs"]), _cfh(case["fh"]), clist([_cop(o) for o in case["ops"]]))
+        vzlist(case["y"]), _czll(case["xs"]), _cfh(case["fh"]), clist([_cop(o) for o in case["ops"]]))
 
 
 def coq_case(case, out):
@@ -1602,6 +1690,8 @@ def distribution(cases, results):
     d = collections.Counter()
     for c, r in zip(cases, results):
         o = r.get("out") or {}
+        if c["kind"] in ("hist", "run", "swt"):
+            d["dtype:y=%s,X=%s" % tuple(c.get("dtype") or ["float64", "float64"])] += 1
         if c["kind"] == "hist":
             d["hist:scenario=%s" % c.get("scenario")] += 1
             d["hist:%s:%s" % (c["strategy"], c["scitype"])] += 1
